@@ -46,6 +46,8 @@ EXTRA = {
     "assumptions": [
         "external law DtLaw: pandas.to_datetime(str) fails only with ValueError or a subclass (checked on every string "
         "of every generated case; a different class is reported as a failure, not assumed away)",
+        "a tracker / fixer object handed to the reader is used whatever its truth value: collecting trackers that are falsy "
+        "while empty (sized, __bool__) or always falsy, and a falsy lenient fixer, are part of the configurations",
         "cells are scalars of the native types a reader produces: str, None, int, float, bool, datetime, date/time "
         "(kept as opaque `other`); rows are lists. Unhashable cells (list, dict) in an onoff column raise TypeError in "
         "the dictionary lookup — outside the input domain of every reader",
@@ -164,6 +166,56 @@ def split_text(text):
 
 # --------------------------------------------------------------------------- running the real code
 
+def collecting(kind="plain"):
+    """a collecting issue tracker; `kind` varies what Python's truth test says about it — a tracker object handed to
+    the reader is THE tracker, whatever `bool(tracker)` / `len(tracker)` are:
+      plain   an ordinary object (truthy)
+      sized   defines __len__ over its issues: falsy while empty
+      never   __bool__ always False
+      hasany  __bool__ is "has issues": falsy while empty"""
+    from pdtable.table_origin import InputIssueTracker
+
+    class Collecting(InputIssueTracker):
+        def __init__(self):
+            self._issues = []
+
+        def add_issue(self, input_issue):
+            self._issues.append(input_issue)
+
+        @property
+        def issues(self):
+            return self._issues
+
+    class Sized(Collecting):
+        def __len__(self):
+            return len(self._issues)
+
+    class Never(Collecting):
+        def __bool__(self):
+            return False
+
+    class HasAny(Collecting):
+        def __bool__(self):
+            return bool(self._issues)
+    return {"plain": Collecting, "sized": Sized, "never": Never, "hasany": HasAny}[kind]()
+
+
+def make_fixer(kind):
+    """fixer for the reader: the shared configurations, plus `lenient-falsy`: a lenient fixer that is falsy (it has a
+    __len__ over its messages, empty at the start) — still THE fixer the caller passed"""
+    if kind == "lenient-falsy":
+        from pdtable import ParseFixer
+
+        class Sized(ParseFixer):
+            def __len__(self):
+                return len(self.messages)
+        f = Sized()
+        f.stop_on_errors = False
+        f._called_from_test = True
+        return f
+    return rc.make_fixer(kind)
+
+
 def table_origins(rows, to, tracker, fixer_kind):
     """origin rows of the TABLE blocks that are delivered when `rows` are read in output form `to` — observed through
     the PUBLIC surface only: `parse_blocks_stable` with a handler dict of our own, built from the public handler
@@ -188,8 +240,8 @@ def table_origins(rows, to, tracker, fixer_kind):
         rec.append(getattr(getattr(origin, "input_location", None), "row", None))
         return val
     handlers[BlockType.TABLE] = table_handler
-    tr = bc.collecting_tracker() if tracker == "collecting" else None
-    fixer = rc.make_fixer(fixer_kind) if fixer_kind else None
+    tr = collecting() if tracker == "collecting" else None
+    fixer = make_fixer(fixer_kind) if fixer_kind else None
     try:
         with warnings.catch_warnings():
             warnings.simplefilter("ignore")
@@ -202,15 +254,15 @@ def table_origins(rows, to, tracker, fixer_kind):
     return rec
 
 
-def run_reader(route, payload, to, tracker, fixer_kind, env=None, rows=None, sep=None, origin=None):
+def run_reader(route, payload, to, tracker, fixer_kind, env=None, rows=None, sep=None, origin=None, tracker_kind="plain"):
     """the real reader: route "native" (parse_blocks on the row objects as given: lists or tuples), "text"
     (read_csv on io.StringIO), "file" (read_csv on a path), "excel" (read_excel on a path).
     -> blocks / issues / ending as bc.impl_parse_blocks, + "tables": [(origin row, value)] of the delivered tables"""
     from pdtable import read_csv, read_excel
     from pdtable.io.parsers.blocks import parse_blocks
     from pdtable.table_origin import InputError
-    tr = bc.collecting_tracker() if tracker == "collecting" else None
-    fixer = rc.make_fixer(fixer_kind) if fixer_kind else None
+    tr = collecting(tracker_kind) if tracker == "collecting" else None
+    fixer = make_fixer(fixer_kind) if fixer_kind else None
     blocks, ending, table_sheets = [], "exhausted", []
     kw = {}
     if sep is not None:
@@ -725,6 +777,7 @@ def run_spec(sp, out, model_ok, ops, pend, tmpdir, cache=None):
     with the stated trackers, judge, queue the model ops. A failure carries `sp` so that it replays exactly."""
     cache = {} if cache is None else cache
     how, to, fixer_kind, trackers = sp["how"], sp["to"], sp["fixer_kind"], sp["trackers"]
+    tk = sp.get("tracker_kind", "plain")
     uro, drows, dtext, shift = sp["urows"], sp["drows"], sp.get("dtext"), sp.get("shift")
     n_files = cache.setdefault("n_files", [0])
     path = None
@@ -734,7 +787,7 @@ def run_spec(sp, out, model_ok, ops, pend, tmpdir, cache=None):
         drows = read_xlsx_rows(path)
     small = sum(len(r) for r in drows) <= 600
     sep, origin = sp.get("sep"), sp.get("origin")
-    case = dict(sp["case"], route=how, to=to, fixer=fixer_kind or "default",
+    case = dict(sp["case"], route=how, to=to, fixer=fixer_kind or "default", tracker_kind=tk,
                 rows=grid_to_json(drows) if small else {"n_rows": len(drows), "see": "spec"})
     if dtext is not None:
         case["text"] = dtext
@@ -755,6 +808,7 @@ def run_spec(sp, out, model_ok, ops, pend, tmpdir, cache=None):
     out.count("kind:" + str(case.get("kind")))
     out.count("to:" + to)
     out.count("fixer:" + (fixer_kind or "default"))
+    out.count("collecting tracker truthiness:" + tk)
     if sp.get("ladder"):
         out.count("rows ladder:%d" % sp["ladder"])
     res = {}
@@ -764,24 +818,24 @@ def run_spec(sp, out, model_ok, ops, pend, tmpdir, cache=None):
                 n_files[0] += 1
                 fpath = write_text_file(tmpdir, dtext, n_files[0])
                 res[tr] = run_reader("file-env", (tmpdir, os.path.basename(fpath)), to, tr, fixer_kind,
-                                     env=how.split(":")[1], rows=drows, sep=sep, origin=origin)
+                                     env=how.split(":")[1], rows=drows, sep=sep, origin=origin, tracker_kind=tk)
                 res[tr]["expect_path"] = os.path.basename(fpath)         # the relative path as it was given
             elif how == "file":
                 n_files[0] += 1
                 fpath = write_text_file(tmpdir, dtext, n_files[0])
                 try:
-                    res[tr] = run_reader("file", fpath, to, tr, fixer_kind, rows=drows, sep=sep, origin=origin)
+                    res[tr] = run_reader("file", fpath, to, tr, fixer_kind, rows=drows, sep=sep, origin=origin, tracker_kind=tk)
                 finally:
                     os.remove(fpath)
                 res[tr]["expect_path"] = fpath
             elif how == "text":
-                res[tr] = run_reader("text", dtext, to, tr, fixer_kind, rows=drows, sep=sep, origin=origin)
+                res[tr] = run_reader("text", dtext, to, tr, fixer_kind, rows=drows, sep=sep, origin=origin, tracker_kind=tk)
             elif how.startswith("excel"):
-                res[tr] = run_reader("excel", path, to, tr, fixer_kind, rows=drows)
+                res[tr] = run_reader("excel", path, to, tr, fixer_kind, rows=drows, tracker_kind=tk)
             elif how == "native-tuples":
-                res[tr] = run_reader("native", [tuple(r) for r in drows], to, tr, fixer_kind, rows=drows)
+                res[tr] = run_reader("native", [tuple(r) for r in drows], to, tr, fixer_kind, rows=drows, tracker_kind=tk)
             else:
-                res[tr] = run_reader("native", [list(r) for r in drows], to, tr, fixer_kind, rows=drows)
+                res[tr] = run_reader("native", [list(r) for r in drows], to, tr, fixer_kind, rows=drows, tracker_kind=tk)
             e = res[tr]["ending"]
             out.count("ending:" + tr + ":" + (e if isinstance(e, str) else next(iter(e))))
     finally:
@@ -807,10 +861,10 @@ def run_spec(sp, out, model_ok, ops, pend, tmpdir, cache=None):
         for tr in trackers:
             if dtext is not None:
                 ops.append({"op": "read_csv_blocks", "text": dtext, "sep": sep or ";", "to": to, "filter": None, "tracker": tr,
-                            "fixer": rc.FIXERS[fixer_kind or "strict"], "ext": ext})
+                            "fixer": rc.FIXERS[(fixer_kind or "strict").split("-")[0]], "ext": ext})
             else:
                 ops.append({"op": "parse_blocks", "rows": grid_to_json(drows), "to": to, "filter": None, "tracker": tr,
-                            "fixer": rc.FIXERS[fixer_kind or "strict"], "ext": ext})
+                            "fixer": rc.FIXERS[(fixer_kind or "strict").split("-")[0]], "ext": ext})
             mcase = case if small else dict(case, rows={"n_rows": len(drows)})
             pend.append((mcase if dtext is None else dict(mcase, rows=grid_to_json(drows)), tr, res[tr]))
 
@@ -836,7 +890,8 @@ def one_base(seed, bi, thorough, out, model_ok, ops, pend, tmpdir):
             idx += 1
             r1, r2, r3, r4 = rng.random(), rng.random(), rng.random(), rng.random()
             to = "pdtable" if r1 < 0.7 else ("jsondata" if r1 < 0.9 else "cellgrid")
-            fixer_kind = None if r2 < 0.85 else "lenient"
+            fixer_kind = None if r2 < 0.85 else ("lenient" if r2 < 0.95 else "lenient-falsy")
+            tracker_kind = ["plain", "sized", "never", "hasany"][idx % 4]
             if thorough and kind == "cell":
                 trackers = ["raising"] if r3 < 0.5 else ["collecting"]
             else:
@@ -864,7 +919,7 @@ def one_base(seed, bi, thorough, out, model_ok, ops, pend, tmpdir):
                     how = "file-env:" + ["chdir", "unlink", "rename"][idx % 3]
             elif r4 < 0.5:
                 how = "native-tuples"                      # rows as tuples, as the Excel reader delivers them
-            sp = {"how": how, "to": to, "fixer_kind": fixer_kind, "trackers": trackers,
+            sp = {"how": how, "to": to, "fixer_kind": fixer_kind, "trackers": trackers, "tracker_kind": tracker_kind,
                   "urows": trows if route == "text" else urows, "ukey": (bi, route), "drows": drows,
                   "dtext": dtext if route == "text" else None, "shift": shift,
                   "sep": sep if route == "text" else None, "origin": origin if route == "text" else None,
@@ -890,6 +945,7 @@ def one_base(seed, bi, thorough, out, model_ok, ops, pend, tmpdir):
             idx += 1
             to = xrng.choice(["pdtable", "pdtable", "jsondata", "cellgrid"])
             sp = {"how": "excel" + ("-nodimension" if strip else ""), "to": to, "fixer_kind": None,
+                  "tracker_kind": ["plain", "sized", "never", "hasany"][idx % 4],
                   "trackers": ["raising", "collecting"], "urows": None, "ukey": None, "drows": None, "xrows": xrows,
                   "shift": None, "case": {"seed": seed, "base": bi, "index": idx, "kind": kind, "detail": detail}}
             run_spec(sp, out, model_ok, ops, pend, tmpdir, cache)
